@@ -116,7 +116,7 @@ class Cfg:
         }
 
 
-def gen_cfg(ctx, cls, n_lo, n_hi, nsets=None):
+def gen_cfg(ctx, cls, n_lo, n_hi, nsets=None, force_unsorted=False):
     rng = ctx.rng
     g = ctx.nprng()
     fs0 = rng.choice([3600.0, 1440.0, 2400.0, 100.0, 51.2, 1000.0, 960.0])
@@ -128,9 +128,9 @@ def gen_cfg(ctx, cls, n_lo, n_hi, nsets=None):
     if cls == "single":
         return Cfg(cls, fs0, [arr(rng.randint(n_lo, n_hi), rng.randint(2, 5))], layout="single")
     k = nsets or rng.randint(1, 3)
-    nchs = [rng.randint(2, 5) for _ in range(k)]
-    nref = rng.randint(1, min(nchs) - 1)
-    layout = rng.choice(["sorted", "unsorted", "trailing", "leading"])
+    nchs = [rng.randint(3 if force_unsorted else 2, 5) for _ in range(k)]
+    nref = rng.randint(2 if force_unsorted else 1, min(nchs) - 1)
+    layout = "unsorted" if force_unsorted else rng.choice(["sorted", "unsorted", "trailing", "leading"])
     refs = []
     for c in nchs:
         if layout == "leading":
@@ -490,7 +490,8 @@ def plan(ctx, which):
         n_lo = MINLEN * 5 ** (L - 1) + 40
         reps = ctx.n(1, 1)
         for _ in range(reps):
-            cfg = gen_cfg(ctx, cls, n_lo, n_lo + 400, nsets=(2 if ctx.thorough else None))
+            # the exhaustively enumerated PreGER object always lists >= 2 references out of ascending order
+            cfg = gen_cfg(ctx, cls, n_lo, n_lo + 400, nsets=(2 if ctx.thorough else None), force_unsorted=(cls == "preger"))
             alpha = gen_alphabet(ctx, cfg, 5 ** (L - 1))
             out.append((cfg, alpha, L, "exhaustive"))
         if ctx.thorough:  # more layouts, exhaustive at length 3
